@@ -1,53 +1,42 @@
-(* C07: synthetic descriptions.  Only statements; proofs are in Text/SyntheticProofs.v *)
+(* C07: synthetic descriptions.  Only statements; proofs are in Text/SyntheticProofs.v.
+
+   [Cur] (Text/Synthetic.v, "THE SWITCH") is the code as /repo has it: since the
+   fix: commits 06641a7 (memmove), b880e62 (intlv-loops), e2bc16d (arity-uninit)
+   and c06b512 (type-match literal end) all four [fix_*] flags are true.
+   [upto_insert] is hwloc_backend_synthetic_init up to and including the implicit
+   NUMA-level insertion ([parse] = [upto_insert] then [back], lemma parse_decomp):
+   the parsing loop with attributes, hwloc_type_sscanf, the sanity checks, the
+   default types, the memmove. *)
 From Coq Require Import NArith List.
 From HV Require Import Base.Bytes Gen.Tables Text.Synthetic Text.SyntheticProofs.
 Import ListNotations.
 Local Open Scope N_scope.
 
-(* synth_parse_safe (for every NUL-terminated description the parser touches neither
-   a byte outside the string nor an element outside level[0..MAX-1]) is FALSE on the
-   code as it is.  Each witness below was replayed on the real library under ASan. *)
-Theorem synth_numa_memmove_refuted :
-  exists s, nul_terminated s /\ parse Cur s = Fault FLevel.
-Proof. exists (desc w_memmove). apply memmove_refuted. reflexivity. Qed.
-Print Assumptions synth_numa_memmove_refuted.
+(* ---------------------------------------------------------------- *)
+(* Parser safety for ALL NUL-terminated descriptions, code as it is  *)
+(* ---------------------------------------------------------------- *)
+Theorem synth_parse_safe : forall s, nul_terminated s ->
+  match upto_insert Cur s with
+  | Ret (lv, count) => lenl lv = MAXD /\ 1 <= count <= MAXD
+  | Rej => True
+  | Fault _ => False       (* no byte outside the string, no element outside level[0..MAX-1], no literal overrun *)
+  end.
+Proof.
+  intros s Hn. pose proof (upto_insert_safe Cur s Hn) as H.
+  destruct (upto_insert Cur s) as [[lv c]| |f]; auto.
+  destruct H as [[_ H]|[_ [H _]]]; discriminate.
+Qed.
+Print Assumptions synth_parse_safe.
 
-Theorem synth_intlv_loops_refuted :
-  exists s, nul_terminated s /\ parse Cur s = Fault FLoops.
-Proof. exists (desc w_loops). apply loops_refuted. reflexivity. Qed.
-
-Theorem synth_type_match_refuted :
-  exists s, nul_terminated s /\ parse Cur s = Fault FLit.
-Proof. exists (desc w_e0). apply type_match_refuted. reflexivity. Qed.
-
-Theorem synth_uninit_arity_refuted :
-  exists s, nul_terminated s /\ parse Cur s = Fault FUninit.
-Proof. exists (desc w_uninit). apply uninit_refuted. reflexivity. Qed.
-
-Theorem synth_width_wraparound_refuted :
-  exists s, nul_terminated s /\ parse Cur s = Fault FDiv.
-Proof. exists (desc w_div). apply div_refuted. Qed.
-
-(* the memmove witness is in the excluded class, one level fewer is accepted,
-   and the fixed statement accepts the witness with all 128 entries used *)
-Example memmove_class_inhabited : memmove_class Cur (desc w_memmove).
-Proof. apply memmove_witness_in_class. Qed.
+(* the boundary is reached: 126 levels below Machine without NUMA are accepted with all
+   128 entries used; 125 levels too *)
+Example synth_126_levels_accepted : exists sy, parse Cur (desc w_memmove) = Ret sy /\ lenl (sy_levels sy) = 128.
+Proof. exact memmove_fixed_ok. Qed.
 Example synth_125_levels_accepted : exists sy, parse Cur (desc w_125) = Ret sy /\ lenl (sy_levels sy) = 127.
 Proof. apply below_boundary_ok. Qed.
-Example synth_memmove_fixed_accepts : exists sy, parse Fixed (desc w_memmove) = Ret sy /\ lenl (sy_levels sy) = 128.
-Proof. exact memmove_fixed_ok. Qed.
 
-(* ---------------------------------------------------------------- *)
-(* Parser safety, for ALL NUL-terminated descriptions.               *)
-(* [upto_insert] is hwloc_backend_synthetic_init up to and including  *)
-(* the implicit NUMA-level insertion ([parse] = [upto_insert] then    *)
-(* [back], lemma parse_decomp): the parsing loop with attributes,     *)
-(* hwloc_type_sscanf, the sanity checks, default types, the memmove.  *)
-(* ---------------------------------------------------------------- *)
-
-(* The code as it is (any variant): no read outside the string, no fuel
-   exhaustion, no access outside level[0..MAX-1] -- except exactly the two
-   known classes. *)
+(* The same statement for every variant of the model (any subset of the four fixes):
+   the only faults are the two known classes, each tied to its flag. *)
 Theorem synth_parse_safe_partial : forall v s, nul_terminated s ->
   match upto_insert v s with
   | Ret (lv, count) => lenl lv = MAXD /\ 1 <= count <= MAXD
@@ -57,44 +46,34 @@ Theorem synth_parse_safe_partial : forall v s, nul_terminated s ->
 Proof. exact upto_insert_safe. Qed.
 Print Assumptions synth_parse_safe_partial.
 
-(* under the hypotheses excluding exactly those classes: no fault at all *)
-Corollary synth_parse_safe_partial_nofault : forall s, nul_terminated s ->
-  ~ memmove_class Cur s -> tm_ok Cur s = true ->
-  forall f, upto_insert Cur s <> Fault f.
-Proof.
-  intros s Hn Hc Ht f E. pose proof (upto_insert_safe Cur s Hn) as H. rewrite E in H.
-  destruct H as [[_ H]|[_ [_ H]]]; [congruence|contradiction].
-Qed.
-Example partial_hypotheses_met : nul_terminated (desc w_125) /\ ~ memmove_class Cur (desc w_125) /\ tm_ok Cur (desc w_125) = true.
-Proof.
-  split; [apply desc_nul_terminated; vm_compute; reflexivity|]. split; [|vm_compute; reflexivity].
-  intros H. apply memmove_class_b_complete in H. vm_compute in H. discriminate.
-Qed.
+(* ---------------------------------------------------------------- *)
+(* Regression statements: what each fix: commit removed.  With the     *)
+(* flag of a fix off, the model faults on the corpus witness (replayed *)
+(* under ASan / valgrind on the tree before the fix).                  *)
+(* ---------------------------------------------------------------- *)
+Theorem synth_numa_memmove_regression : forall v, fix_memmove v = false ->
+  nul_terminated (desc w_memmove) /\ parse v (desc w_memmove) = Fault FLevel.
+Proof. exact memmove_refuted. Qed.
+Theorem synth_memmove_class_exact_regression : forall v s, fix_memmove v = false -> nul_terminated s ->
+  memmove_class v s -> upto_insert v s = Fault FLevel.
+Proof. exact memmove_class_overflows. Qed.
+Example memmove_class_inhabited : memmove_class Cur (desc w_memmove).
+Proof. apply memmove_witness_in_class. Qed.
+Theorem synth_intlv_loops_regression : forall v, fix_loops v = false ->
+  nul_terminated (desc w_loops) /\ parse v (desc w_loops) = Fault FLoops.
+Proof. exact loops_refuted. Qed.
+Theorem synth_type_match_regression : forall v, fix_tm v = false ->
+  nul_terminated (desc w_e0) /\ parse v (desc w_e0) = Fault FLit.
+Proof. exact type_match_refuted. Qed.
+Theorem synth_uninit_arity_regression : forall v, fix_arity v = false ->
+  nul_terminated (desc w_uninit) /\ parse v (desc w_uninit) = Fault FUninit.
+Proof. exact uninit_refuted. Qed.
 
-(* the excluded class is exactly the set of descriptions that overflow *)
-Theorem synth_memmove_class_exact : forall s, nul_terminated s ->
-  (memmove_class Cur s <-> upto_insert Cur s = Fault FLevel).
-Proof.
-  intros s Hn. split; [apply memmove_class_overflows; [reflexivity|exact Hn]|].
-  intros E. pose proof (upto_insert_safe Cur s Hn) as H. rewrite E in H.
-  destruct H as [[H _]|[_ [_ H]]]; [discriminate|exact H].
-Qed.
-(* ... and the overflow is an overflow of the whole parser *)
-Theorem synth_memmove_class_parse : forall s, nul_terminated s -> memmove_class Cur s -> parse Cur s = Fault FLevel.
-Proof. intros s Hn Hc. apply upto_insert_fault_parse. apply memmove_class_overflows; [reflexivity|assumption..]. Qed.
-
-(* The code with the four fixes of /verif/patches/fix-C07-*.diff: full statement.
-   AFTER THE FIXES ARE COMMITTED TO /repo: set [Cur := Fixed] in Text/Synthetic.v;
-   this theorem then is synth_parse_safe for the code as it is. *)
-Theorem synth_parse_safe_fixed : forall s, nul_terminated s ->
-  match upto_insert Fixed s with
-  | Ret (lv, count) => lenl lv = MAXD /\ 1 <= count <= MAXD
-  | Rej => True
-  | Fault _ => False
-  end.
-Proof.
-  intros s Hn. pose proof (upto_insert_safe Fixed s Hn) as H.
-  destruct (upto_insert Fixed s) as [[lv c]| |f]; auto.
-  destruct H as [[_ H]|[_ [H _]]]; discriminate.
-Qed.
-Print Assumptions synth_parse_safe_fixed.
+(* ---------------------------------------------------------------- *)
+(* Still false on the code as it is (known finding                     *)
+(* intlv-width-wraparound): totalwidth wraps modulo 2^64 and is used   *)
+(* as a divisor by the type-based interleaving.                        *)
+(* ---------------------------------------------------------------- *)
+Theorem synth_width_wraparound_refuted :
+  exists s, nul_terminated s /\ parse Cur s = Fault FDiv.
+Proof. exists (desc w_div). apply div_refuted. Qed.
